@@ -261,6 +261,9 @@ func asm14RealExec(c *Ctx, op string) {
 		"w4": {d(""), fl("file4", "four"), Entry{Name: "shared", Kind: 'd', Perms: 02775, Uid: 7, Gid: 7, Sec: 1e9}},
 		// w5 is requested with an altering unpack filter (owner and mtime forced): it is shelved under the filtered id
 		"w5": {d(""), fl("file5", "five"), d("d5"), fl("d5/inner5", "i5")},
+		// wa is requested with a filter that counts as altering and changes nothing of it (dev=ignore, no devices): the
+		// unpack reports the id of the ware itself, and the cache shelves the tree under a key of its own
+		"wa": {d(""), fl("filea", "aaa"), d("da"), fl("da/innera", "ia")},
 		// w7 carries a two-hop chain: `hop` -> `hop2` (relative, no dots), `hop2` -> the outside (absolute)
 		"w7": {d(""), fl("file7", "seven"), ln("hop", "hop2"), ln("hop2", sandboxOutside), ln("rel", "d"), d("d")},
 		// w9 shadows the root's pre-existing directory `pre` with one of its own (another mtime) and brings a link to it
@@ -322,6 +325,9 @@ func asm14RealExec(c *Ctx, op string) {
 			filt := api.FilesetUnpackFilter_Lossless
 			if x.kind == "w5" {
 				filt = api.MustParseFilesetUnpackFilter("uid=1234,gid=2345,mtime=@4321,sticky=follow,setid=follow,dev=follow")
+			}
+			if x.kind == "wa" {
+				filt = api.MustParseFilesetUnpackFilter("uid=follow,gid=follow,mtime=follow,sticky=follow,setid=follow,dev=ignore")
 			}
 			specs = append(specs, stitch.UnpackSpec{Path: fs.MustAbsolutePath(x.path), WareID: w, Filters: filt,
 				Warehouses: []api.WarehouseLocation{whAddr("ca", whDir)}})
@@ -531,7 +537,7 @@ func asm14RealExec(c *Ctx, op string) {
 				}
 				continue
 			}
-			marker := map[string]string{"w0": "file0", "w1": "file1", "w2": "file2", "w3": "file3", "w4": "file4", "w5": "file5", "w7": "file7", "w8": "file8", "ro": "hostfile", "rw": "hostfile"}[a.kind]
+			marker := map[string]string{"w0": "file0", "w1": "file1", "w2": "file2", "w3": "file3", "w4": "file4", "w5": "file5", "wa": "filea", "w7": "file7", "w8": "file8", "ro": "hostfile", "rw": "hostfile"}[a.kind]
 			p := strings.TrimSuffix(a.path, "/") + "/" + marker
 			covered := false
 			for _, b := range ins {
@@ -796,7 +802,7 @@ func asm14Engine(c *Ctx) {
 		"/=w4,/shared/new/deeper/m=w0", "/=w4,/shared/new/m=ro", "/a=w4,/a/shared/x/y=w1",
 		// a symlink higher up the parent chain whose remaining chain exists behind the link (relative / absolute, re-rooted)
 		"/=w1,/lnk/deep/x=w0", "/=w1,/lnk/deep/er/x=w0", "/=w2,/abs/osub/x=w0", "/a=w1,/a/lnk/deep/x=w0", "/=w1,/lnk/deep/x=ro",
-		"/=w5", "/=w0,/d/x=w5", "/a=w5,/a/d5/y=w0,/b=w5",
+		"/=wa", "/=w0,/d/x=wa", "/a=wa,/b=wa,/c=w0", "/=w5", "/=w0,/d/x=w5", "/a=w5,/a/d5/y=w0,/b=w5",
 		"/=w8,/x=w0,/lib/plug=w5", "/=w8,/x=w0,/lib/d/plug=w1", "/=w8,/lib/plug=w0",
 		"/=w7,/hop/x=w0", "/=w7,/hop/osub/y=w0", "/=w7,/rel/x=w0", "/a=w7,/a/hop/x=rw", "/=w7,/hop2/x=w5",
 		"/=w0,/d=w6", "/=w1,/d=w6,/d/deep/z=w0", "/a=w5,/a/d5=w6", "/=w6", "/x/y=w6",
